@@ -7,7 +7,7 @@ import json, os, re, subprocess
 ROOT = os.path.dirname(os.path.dirname(os.path.abspath(__file__)))
 SCHED = os.path.join(ROOT, "tools", "sched")
 CACHE = os.path.join(ROOT, ".cache")
-M = 7          # events per thread (tbmc.rs)
+M = 8          # events per thread (tbmc.rs)
 TMAX = 4
 OPNAMES = {0: "nextid", 1: "chunk", 2: "buf", 3: "skip", 4: "len", 5: "next"}  # 6, 7 (for_each) are not replayable by tools/sched
 BUFN = 2
@@ -47,7 +47,7 @@ def decode(code, nt, nops):
     events = []
     for t in range(nt):
         c = take()
-        for j in range(min(c, M)):
+        for j in range(c):
             ts, loc, kind, operand, before, after, pred, ord_, op = (take() for _ in range(9))
             for _ in range(3 * TMAX):
                 take()
@@ -69,9 +69,9 @@ def decode(code, nt, nops):
 def schedule_of(tr):
     sched = []
     for e in sorted(tr["events"], key=lambda e: e["ts"]):
+        # kind 3 = entering the wrapped next (position read), kind 4 = leaving it with an element (position
+        # written); a call that finds the source exhausted has no second step
         sched.append(e["t"])
-        if e["kind"] == 3:  # use of the wrapped iterator = enter + exit
-            sched.append(e["t"])
     return sched
 
 
